@@ -40,7 +40,7 @@ def gen_cases(tier, seed):
     cases += [{"kind": "lattice2", "first": i} for i in range(len(TRIPLES))]
     if tier == "thorough":
         cases += [{"kind": "lattice3", "first": i, "second": j} for i in range(len(TRIPLES)) for j in range(0, len(TRIPLES), 1)]
-    n_rand = 150 if tier == "quick" else 6000
+    n_rand = 150 if tier == "quick" else 40000
     cases += [{"kind": "random", "i": i, "seed": seed} for i in range(n_rand)]
     return cases
 
